@@ -985,7 +985,9 @@ func opReferenceChangeJournal(ctx context.Context, pc *uint64, interpreter *EVMI
 		// (leading zero bytes are content, they must not be stripped)
 		stateBytes = common.CopyBytes(rawState[:length])
 	} else {
-		referenceSlot := new(uint256.Int).SetBytes(keccak(interpreter, storageSlot.Bytes()))
+		// the data area starts at keccak256 of the slot number as a 32-byte word
+		slotWord := storageSlot.Bytes32()
+		referenceSlot := new(uint256.Int).SetBytes(keccak(interpreter, slotWord[:]))
 		for i := uint64(0); i < u64Ceiling(length, 32); i++ {
 			offset := referenceSlot.Add(referenceSlot, one).Bytes32()
 			currentRawState := interpreter.evm.StateDB.GetState(contract, offset)
